@@ -3,6 +3,8 @@ package checks
 import (
 	"errors"
 	"fmt"
+	"sync"
+	"sync/atomic"
 	"time"
 
 	"github.com/absfs/absfs"
@@ -160,4 +162,67 @@ func newOpts(c cacheCfg) absnfs.ExportOptions {
 	var o absnfs.ExportOptions
 	c.apply(&o)
 	return o
+}
+
+// startDrain puts the server into the policy-drain state: a LOOKUP of /f (the caller seeds it) issued as cl is
+// parked inside the backend, UpdatePolicyOptions(pol) is started and blocks on it, and the function returns once a
+// probe as cl is answered NFS3ERR_JUKEBOX (the drain is then in progress until release is called). ok=false: the
+// state could not be established (nothing is left running).
+func startDrain(tb stat.TB, s *session, v *vfs.FS, cl drv.Client, pol absnfs.PolicyOptions) (release func(), ok bool) {
+	root, st, err := s.e.Mount(cl, "/")
+	if err != nil || st != 0 {
+		return func() {}, false
+	}
+	gate, parked := make(chan struct{}), make(chan struct{})
+	var once sync.Once
+	var armed atomic.Bool
+	armed.Store(true)
+	v.SetBefore(func(call *vfs.Call) {
+		if call.Op == "Lstat" && armed.CompareAndSwap(true, false) {
+			once.Do(func() { close(parked) })
+			<-gate
+		}
+	})
+	reqDone, updDone := make(chan struct{}), make(chan error, 1)
+	go func() {
+		defer close(reqDone)
+		s.e.Call(cl, nfsx.ProgNFS, 3, nfsx.ProcLookup, nfsx.ArgsDirop(root, "f"))
+	}()
+	released := false
+	release = func() {
+		if released {
+			return
+		}
+		released = true
+		close(gate)
+		<-reqDone
+		select {
+		case <-updDone:
+		case <-time.After(20 * time.Second):
+			tb.Fatalf("harness: policy update did not finish after the gate opened")
+		}
+		v.SetBefore(nil)
+	}
+	select {
+	case <-parked:
+	case <-time.After(10 * time.Second):
+		armed.Store(false)
+		close(gate)
+		<-reqDone
+		v.SetBefore(nil)
+		return func() {}, false
+	}
+	go func() { updDone <- s.e.NFS.UpdatePolicyOptions(pol) }()
+	deadline := time.Now().Add(10 * time.Second)
+	for {
+		rp, err := s.e.Call(cl, nfsx.ProgNFS, 3, nfsx.ProcGetattr, nfsx.ArgsFh(root))
+		if err == nil && rp.Stat == nfsx.MsgAccepted && rp.AcceptStat == 0 && len(rp.Body) >= 4 && (&nfsx.R{B: rp.Body}).U32() == nfsx.ErrJukebox {
+			return release, true
+		}
+		if time.Now().After(deadline) {
+			release()
+			return func() {}, false
+		}
+		time.Sleep(200 * time.Microsecond)
+	}
 }
